@@ -45,7 +45,8 @@ def plan(tier, seed):
     n = 140 if tier == 'quick' else 2800
     for i in range(n):
         cases.append({'kind': 'hist', 'seed': seed * 1000003 + i, 'transport': 'le' if i % 4 else 'bredr'})
-    ops = ['le', 'enh2', 'le-close', 'le-close-peer', 'le-drain', 'br', 'br-close', 'br-close-peer', 'ertm']
+    ops = ['le', 'enh2', 'le-close', 'le-close-peer', 'le-drain', 'le-drain1', 'le-drain1-close', 'br', 'br-close',
+           'br-close-peer', 'ertm']
     for i, op in enumerate(ops):
         for side in (0, 1):
             cases.append({'kind': 'cut', 'seed': seed * 1000003 + i, 'op': op, 'side': side,
@@ -77,6 +78,9 @@ class World:
             if self.transport == 'le':
                 d.create_l2cap_server(spec=l2cap.LeCreditBasedChannelSpec(psm=PSM_LE, max_credits=8),
                                       handler=self.accepted[i].append)
+                # a stingy server: 2 credits of 23 bytes, so that one small write stays partly unsent
+                d.create_l2cap_server(spec=l2cap.LeCreditBasedChannelSpec(psm=PSM_LE + 2, mps=23, max_credits=2),
+                                      handler=self.accepted[i].append)
             else:
                 d.create_l2cap_server(spec=l2cap.ClassicChannelSpec(psm=PSM_BR), handler=self.accepted[i].append)
                 d.l2cap_channel_manager.extended_features.update({
@@ -102,6 +106,8 @@ class World:
         from bumble import l2cap
         if kind == 'le':
             return l2cap.LeCreditBasedChannelSpec(psm=PSM_LE, max_credits=8)
+        if kind == 'le-stingy':
+            return l2cap.LeCreditBasedChannelSpec(psm=PSM_LE + 2, max_credits=8)
         if kind == 'le-none':
             return l2cap.LeCreditBasedChannelSpec(psm=PSM_NONE)
         if kind == 'br':
@@ -332,6 +338,8 @@ async def cut_scenario(case, r: R, cut_at, dry):
     pre = None
     if op in ('le-close', 'le-close-peer', 'le-drain'):
         pre = (await w.op_open('a', 'le'))[0]
+    elif op in ('le-drain1', 'le-drain1-close'):
+        pre = (await w.op_open('a', 'le-stingy'))[0]
     elif op in ('br-close', 'br-close-peer'):
         pre = (await w.op_open('a', 'br'))[0]
     if pre:
@@ -369,6 +377,14 @@ async def cut_scenario(case, r: R, cut_at, dry):
             aw = pre[0].disconnect()
         elif op in ('le-close-peer', 'br-close-peer'):
             aw = pre[1].disconnect()
+        elif op in ('le-drain1', 'le-drain1-close'):
+            # exactly ONE buffer that fits one SDU but not the peer's credits: part of the SDU is
+            # sent, nothing is queued behind it
+            pre[0].write(bytes(500))
+            if op == 'le-drain1-close':
+                # the *peer* closes the channel (no link drop needed)
+                asyncio.ensure_future(_safe(pre[1].disconnect()))
+            aw = pre[0].drain()
         elif op == 'le-drain':
             # queue more data than the peer granted credits for, then wait for drain
             pre[0].write(bytes(60000))
